@@ -10,7 +10,9 @@ mod cli;
 mod corpus;
 mod eterm;
 mod fw;
+mod hast;
 mod props;
+mod rgram;
 mod rtok;
 mod util;
 
